@@ -30,64 +30,33 @@ import subprocess
 import sys
 import time
 
-import shutil
-import tempfile
-
 from harness import common
 from harness.common import enc, dec, shrink_str, VERIF, LeanError
 from harness import lexmodel as LM
 
-DRV_COPY = [None]     # private copy of the driver binary (other checks may relink the shared one while we run)
-
 
 class Driver(common.Driver):
-    """the shared Driver, but running a private copy of the binary taken under the build lock"""
-
-    def __init__(self):
-        self.n = 0
-        self.path = DRV_COPY[0] or common.DRV
-        if not os.path.exists(self.path):
-            raise LeanError("driver not built: " + self.path)
-
-    def ask_many(self, lines):
-        lines = list(lines)
-        if not lines:
-            return []
-        data = "\n".join(lines) + "\n"
-        p = subprocess.run([self.path], input=data.encode("ascii"), stdout=subprocess.PIPE, stderr=subprocess.PIPE,
-                           timeout=3000)
-        if p.returncode != 0:
-            raise LeanError("driver exited %d: %s" % (p.returncode, p.stderr.decode()[-2000:]))
-        out = p.stdout.decode("ascii").split("\n")
-        if out and out[-1] == "":
-            out.pop()
-        if len(out) != len(lines):
-            raise LeanError("driver answered %d lines for %d requests" % (len(out), len(lines)))
-        self.n += len(lines)
-        return out
+    """the shared driver pipe (a private snapshot of the binary, taken once in the main process before the worker
+    pool is forked, so that a concurrent relink of the shared binary cannot disturb a run)"""
 
 
 def private_driver():
-    d = tempfile.mkdtemp(prefix="c01drv_")
-    lk = common._lock()
-    try:
-        shutil.copy2(common.DRV, os.path.join(d, "makodrv"))
-    finally:
-        lk.close()
-    DRV_COPY[0] = os.path.join(d, "makodrv")
-    return d
+    return common.snapshot_driver()
+
 
 REGEN = ["Unicode", "LexerCfg"]
 
 RULE = ("(a) all concatenations of <=k tokens from {<% %> </% ${ } % %% ## \\ LF CRLF CR \" ' | > / <%text> </%text> "
         "<%doc> </%doc> <%def name=\"f()\"> </%def> space a e-acute} (quick k=3 + a 1/8 sample of k=4; thorough k<=5 "
-        "exhaustive); per-matcher exhaustive enumerations over regex-specific alphabets at 3 cursor contexts; "
+        "exhaustive); per-matcher exhaustive enumerations over regex-specific alphabets at 4 cursor contexts (offset 0, "
+        "after LF, mid-line, after text+LF); 35 canonical one-directive documents; "
         "(b) seeded documents of 8-60 segments interleaving Unicode text runs (incl. stray % # $ < \\ { } |, CR, LF, "
         "CRLF, NBSP, U+2028, astral) with well-formed directives (expression, control lines, ## comment, %% escape, "
         "backslash-newline, <%doc>, <%text>, <% %>, <%! %>, def+call) at line start / mid-line / after a "
         "continuation / at EOF / after CRLF, each with its ground-truth output; (c) token-level mutations of such "
-        "documents and random token soup. A case is non-trivial when it contains at least one directive opener or "
-        "escape; distinct = distinct strings.")
+        "documents and random token soup; timing test: 27 hand-written + 234 grid families (unterminated opener x "
+        "repeated filler), n = 16..1024 (quick) / 32768 (thorough). A case is non-trivial when it contains at least "
+        "one directive opener or escape; distinct = distinct strings.")
 ASSUMPTIONS = [
     "a line ends at LF only (a lone CR is ordinary text), blanks are space and tab - as everywhere in mako's lexer",
     "the magic encoding comment on the first line (`# -*- coding: x -*-`) is a directive: it is consumed by parse()",
@@ -102,6 +71,21 @@ TRUSTED_EXTRA = [
     "C01: the running time of CPython's backtracking regex engine is measured (timing test), not modelled",
     "C01: Unicode class tables are probed from the running interpreter (tools/regen_unicode.py)",
 ]
+
+# sha1 over the regex literals of mako/lexer.py the model was written against (Generated/LexerCfg.lean holds the
+# current one).  A different fingerprint never changes a verdict: it only makes the quick tier run the per-matcher
+# enumerations at their thorough sizes (change-directed effort).
+MODELLED_FINGERPRINT = "4ac55a6ecba51f252f869ae9747621846d928461"
+
+
+def current_fingerprint():
+    try:
+        txt = open(os.path.join(VERIF, "lean", "MakoModel", "Generated", "LexerCfg.lean"), encoding="utf-8").read()
+        m = re.search(r'def regexFingerprint : String := "([0-9a-f]+)"', txt)
+        return m.group(1) if m else None
+    except OSError:
+        return None
+
 
 NPROC = min(16, os.cpu_count() or 1)
 warnings.filterwarnings("ignore", category=SyntaxWarning)
@@ -214,13 +198,19 @@ def bol_at(s, off):
 
 
 def classify_gap(s, g, left):
-    """name the site of unaccounted source text `left` starting at offset g"""
-    if len(left) == 1:
-        if s.startswith("</%", g):
-            return "empty-match-skips-char"
-        if (g == 0 or s[g - 1] == "\n") and re.match(r"[ \t]*(%|##)", s[g:]):
-            return "empty-match-skips-char"
-    return "source-text-unaccounted"
+    """name the site of unaccounted source text `left` starting at offset g: every character of it must be one
+    that match_text's empty match steps over (the `<` of a `</%`, or the first character of a `%`/`##` line)"""
+    if not left:
+        return "source-text-unaccounted"
+    for i in range(len(left)):
+        o = g + i
+        if s.startswith("</%", o):
+            continue
+        if (o == 0 or s[o - 1] == "\n" or (i > 0 and s[g - 1:g] in ("", "\n") and left[:i].strip(" \t") == "")) \
+                and re.match(r"[ \t]*(%|##)", s[o:]):
+            continue
+        return "source-text-unaccounted"
+    return "empty-match-skips-char"
 
 
 def tiling_oracle(s, tree):
@@ -271,12 +261,15 @@ def tiling_oracle(s, tree):
             g = off + best
             left = span[best:]
             # skip further closers after the unaccounted character to measure what is really missing
-            rest = left[1:]
-            fm2 = F_RE.match(rest)
-            core = left[:1] if fm2.end() == len(rest) else left
+            core = left
+            for cut in range(1, len(left) + 1):
+                if F_RE.match(left, cut).end() == len(left):
+                    core = left[:cut]
+                    break
             site = classify_gap(s, g, core)
             if (site == "source-text-unaccounted" and n.__class__.__name__ == "Text" and bol_at(s, off)
-                    and re.match(r"(?s)\s*%+\Z", n.content) and core == "%"):
+                    and re.match(r"(?s)\s*%+\Z", n.content) and core[:1] == "%"
+                    and (core == "%" or classify_gap(s, g + 1, core[1:]) == "empty-match-skips-char")):
                 site = "percent-escape-after-nonblank-whitespace"
             bad.append((site, "after %s at (%s,%s): %r is in no node" % (n.__class__.__name__, n.lineno, n.pos, core[:20])))
     return bad
@@ -313,24 +306,30 @@ def render_oracle_inert(s):
         return ("inert-input-rejected", "%s: %s" % (type(e).__name__, str(e)[:120]))
     if out == s:
         return None
-    # which characters went missing?
-    if re.match(r"(?s)\s*%%", s) and not re.match(r"[ \t\n]*%%", s):
-        m = re.match(r"(?s)(\s*)%%", s)
-        if out == s[:m.end() - 1] + s[m.end():]:
-            return ("percent-escape-after-nonblank-whitespace", "rendered %r" % out[:60])
-    # F1 shape: the output is the input minus the `<` of some `</%`
+    # which characters went missing?  (known shapes: one `%` of a `\\s*%%` at the very start whose whitespace is not
+    # blank; the `<` of a `</%`)
+    base = s
+    f1c = False
+    m = re.match(r"(?s)(\s*)%%", s)
+    if m and not re.match(r"[ \t\n]*%%", s):
+        base = s[:m.end() - 1] + s[m.end():]
+        f1c = True
     j = 0
     ok = True
-    for i, ch in enumerate(s):
-        if j < len(out) and out[j] == ch:
+    dropped = 0
+    for i, ch in enumerate(base):
+        if j < len(out) and out[j] == ch and not (base.startswith("</%", i) and out[j:j + 3] != "</%"):
             j += 1
-        elif s.startswith("</%", i):
-            continue
+        elif base.startswith("</%", i):
+            dropped += 1
         else:
             ok = False
             break
     if ok and j == len(out):
-        return ("empty-match-skips-char", "rendered %r" % out[:60])
+        if dropped:
+            return ("empty-match-skips-char", "rendered %r" % out[:60])
+        if f1c:
+            return ("percent-escape-after-nonblank-whitespace", "rendered %r" % out[:60])
     return ("render-differs", "rendered %r" % out[:80])
 
 
@@ -428,7 +427,7 @@ MATCHER_SPECS = {
     # name: (alphabet, head, quick maxlen, thorough maxlen, tag stacks, ctl stacks)
     "tag_start": (["a", ".", ":", " ", "\n", "=", ",", '"', "'", "/", ">", "x"], ["<%", "<%text"], 4, 5, [[]], [[]]),
     "tag_end": (["a", " ", "\t", ">", "/", "%", "\n", "<"], ["</%"], 5, 6, [[], ["a"], ["aa", "a"]], [[]]),
-    "control_line": (["%", "#", " ", "\t", "\\", "\n", "\r", "a"], [""], 5, 7, [[]], [[], ["if"]]),
+    "control_line": (["%", "#", " ", "\t", "\\", "\n", "\r", "a"], [""], 5, 6, [[]], [[], ["if"]]),
     "control_kw": (["end", "if", "for", "else", "elif", "try", "except", "finally", "while", "x", ":", " ", "\n"],
                    ["% ", "%"], 3, 4, [[]], [[], ["if"], ["for"], ["try", "if"], ["while"]]),
     "comment": (["<%doc>", "</%doc>", "<", "/", "%", "doc>", "\n", "a"], ["", "<%doc>"], 5, 6, [[]], [[]]),
@@ -528,9 +527,11 @@ def task_matcher(args):
     alphabet = MATCHER_SPECS[name][0]
     method = MATCHER_METHOD.get(name, name)
     cases = []
+    # the longest bodies (6 tokens) only at offset 0 and at a line start after text
+    contexts = CONTEXTS if rest_len < 5 else ["", "x\n"]
     for t in itertools.product(alphabet, repeat=rest_len):
         body = head + first + "".join(t)
-        for c in CONTEXTS:
+        for c in contexts:
             cases.append((c + body, len(c)))
     drv = Driver()
     outs = drv.ask_many([LM.req_matcher(method, s, p, tags, ctls) for s, p in cases])
@@ -915,6 +916,34 @@ def doc_oracle(src, want):
     return None
 
 
+# small canonical documents: every directive kind once, at the position kinds the property names; (source, output)
+CANONICAL = [
+    ("plain \u00e9 \u4e16 % # $ < \\ { } | > /\r\nx\ry", "plain \u00e9 \u4e16 % # $ < \\ { } | > /\r\nx\ry"),
+    ("${'a'}", "a"), ("x${x}y", "xXy"), ("${ '}' }", "}"), ("${'a|b' | n}", "a|b"), ("${'<' | h}\n", "&lt;\n"),
+    ("${x\r\n}", "X"),
+    ("%%x", "%x"), ("a\n  %%% b\n", "a\n  %% b\n"), ("a\r\n%%\r\n", "a\r\n%\r\n"), ("a %% b", "a %% b"),
+    ("## c\nx", "x"), ("##\nx\n", "x\n"), ("a\n  ##  \n  b\n", "a\n  b\n"), ("a\r\n##\r\nb\r\n", "a\r\nb\r\n"), ("x\n  ## c\r\ny", "x\ny"), ("x\n## c", "x\n"), ("a ## b\n", "a ## b\n"),
+    ("a\\\nb", "ab"), ("a\\\r\nb", "ab"), ("a\\\n", "a"), ("a\\b", "a\\b"), ("a\\\n%%b", "a%b"),
+    ("<%doc>d\n</%doc>x", "x"), ("a<%doc></%doc>\nb", "a\nb"),
+    ("<%text>${x} ## % <%doc>\n</%text>y", "${x} ## % <%doc>\ny"), ("a<%text>t</%text>", "at"),
+    ("% if True:\nx\n% endif\n", "x\n"), ("  % if x == 'X':\r\na\r\n  % else:\r\nb\r\n  % endif\r\nc", "a\r\nc"),
+    ("% for i in range(2):\n${i}\n% endfor", "0\n1\n"), ("% if \\\n True:\ny\n%endif\n", "y\n"),
+    ("<% y = 1 %>${y}", "1"), ("<%! z = 2 %>${z}", "2"), ("<%\n  w = '%>'\n%>${w}", "%>"),
+    ('<%def name="f()">d</%def>[${f()}]', "[d]"), ('<%def name="g(a)">\n${a}\n</%def>${g(1)}', "\n1\n"),
+    ("# -*- coding: utf-8 -*-\nx", "x"), ("a\n# b\n", "a\n# b\n"),
+]
+
+
+def canonical_oracle():
+    """-> list of (site, source, detail) for canonical documents that do not render as documented"""
+    bad = []
+    for src, want in CANONICAL:
+        r = doc_oracle(src, want)
+        if r:
+            bad.append((r[0], src, r[1]))
+    return bad
+
+
 def task_documents(args):
     seed, n, empty_text = args
     import random
@@ -1007,7 +1036,27 @@ def families():
         ("dollar", lambda n: "$" * n + "{"),
         ("block-percent", lambda n: "<%" + "%" * n),
         ("coding", lambda n: "#" + "coding:" * n),
-    ]
+    ] + grid_families()
+
+
+OPENERS = [("expr-squote", "${'"), ("expr-dquote", '${"'), ("expr-tquote", "${" + "'" * 3), ("expr", "${"),
+           ("expr-filter", "${a|"), ("block-squote", "<% x = '"), ("block-dquote", '<% x = "'), ("block", "<%"),
+           ("module-block", "<%!"), ("tag", "<%a"), ("tag-attr", '<%a b="'), ("tag-attr-sq", "<%a b='"),
+           ("text-tag", "<%text>"), ("doc", "<%doc>"), ("closing", "</%"), ("control", "% if "), ("comment", "## "),
+           ("plain", "")]
+FILLERS = [("blanks", " "), ("letters", "a"), ("words", "ab "), ("braces", "{}"), ("backslash-blank", "\\ "),
+           ("newlines", "\n"), ("assign", "x= "), ("squotes", "'"), ("dquotes", '"'), ("mixed", "a\"b'c "),
+           ("lt", "<"), ("percent-gt", "%>"), ("crs", "\r")]
+
+
+def grid_families():
+    """an unterminated opener of every construct followed by n repetitions of a filler and a `}`: what a typo
+    looks like; pumps every loop of every regex of the lexer"""
+    fams = []
+    for on, o in OPENERS:
+        for fn, f in FILLERS:
+            fams.append(("%s+%s" % (on, fn), (lambda o_, f_: (lambda n: o_ + f_ * n + "}"))(o, f)))
+    return fams
 
 
 CHILD = r"""
@@ -1212,7 +1261,7 @@ def classes(ctx, drv):
 def run(ctx):
     del VIOL[:]
     repo = os.environ.get("MAKO_REPO", "/repo")
-    tmpd = private_driver()
+    private_driver()
     pool = multiprocessing.get_context("fork").Pool(NPROC)
     t0 = time.time()
     try:
@@ -1221,8 +1270,13 @@ def run(ctx):
             classes(ctx, drv)
             # ---------------- per-matcher streams ------------------------------------------------------
             jobs = []
+            fp = current_fingerprint()
+            deep = (not ctx.quick) or fp != MODELLED_FINGERPRINT
+            ctx.branch("regex-fingerprint:" + ("as-modelled" if fp == MODELLED_FINGERPRINT else "changed"))
+            if ctx.quick and deep:
+                ctx.log("the regex literals of mako/lexer.py changed: per-matcher streams run at thorough size")
             for name, (alphabet, heads, qk, tk, tagss, ctlss) in MATCHER_SPECS.items():
-                k = qk if ctx.quick else tk
+                k = tk if deep else qk
                 for head in heads:
                     for tags in tagss:
                         for ctls in ctlss:
@@ -1262,8 +1316,10 @@ def run(ctx):
                 if n <= 2:
                     jobs.append(("corr.lexer.exhaustive", task_exhaustive, ((), n, 1, 0, opts)))
                 else:
+                    # k=5: model comparison, tiling and exception oracles; the render oracle stops at k=4
+                    o5 = opts if n <= 4 else {"render": False}
                     for pre in itertools.product(ALPHA, repeat=2 if n >= 4 else 1):
-                        jobs.append(("corr.lexer.exhaustive", task_exhaustive, (pre, n - len(pre), 1, 0, opts)))
+                        jobs.append(("corr.lexer.exhaustive", task_exhaustive, (pre, n - len(pre), 1, 0, o5)))
             if ctx.quick:
                 phase = ctx.seed % 8
                 for pre in itertools.product(ALPHA, repeat=1):
@@ -1308,7 +1364,11 @@ def run(ctx):
                         "model": drv.ask(LM.req_full("a</%b")), "impl": str(LM.impl_lex("a</%b")["nodes"])})
         finally:
             # ---------------- fixed witnesses (corpus) + timing: always run ------------------------------
-            corpus = ["a</%b", "x\n% foo\rbar", "<%text></%text></%text>", "\x0b%%", "<%a:b:c/>"]
+            st_c = ctx.stream("oracle.render", "oracle")
+            for site, src, detail in canonical_oracle():
+                VIOL.insert(0, (site, src, detail, "oracle.render-canonical"))
+            st_c["cases"] += len(CANONICAL)
+            corpus = ["a</%b", "x\n% foo\rbar", "<%text></%text></%text>", "\x0b%%", "<%a:b:c/>"] + [c for c, _ in CANONICAL]
             r = check_batch(corpus, {"render": True})
             merge(ctx, "corr.lexer.corpus", "corr", r)
             g = DocGen(__import__("random").Random(1), True)
@@ -1344,8 +1404,6 @@ def run(ctx):
         pool.join()
         ctx._drv = ctx._drv or common.Driver.__new__(common.Driver)
         ctx._drv.n = getattr(ctx._drv, "n", 0) + sum(s_["cases"] for n_, s_ in ctx.streams.items() if s_["kind"] == "corr")
-        DRV_COPY[0] = None
-        shutil.rmtree(tmpd, ignore_errors=True)
 
 
 def replay(ctx, data):
